@@ -70,15 +70,16 @@ MkPair(P, Q, fp) ==
     LET p0 == OnFace(P, fp \div 6)
         q0 == OnFace(Q, fp % 6)
         sc == p0 \o q0
-        vs == UNION {OwnPts(sc[k]) : k \in 1..Len(sc)}
+        \* vertices imposed on a loop: the own vertices of every loop of the scene on the same face
+        vsOn(f) == UNION {OwnPts(sc[k]) : k \in {j \in 1..Len(sc) : sc[j].f = f}}
         u == Probes(sc, GF)
         \* every loop starts at a pseudo-randomly chosen vertex
-        vx(l) == LET v == Verts(l, vs) IN RotateTo(v, ((LKey(l) + fp) % Len(v)) + 1)
+        vx(l) == LET v == Verts(l, vsOn(l.f)) IN RotateTo(v, ((LKey(l) + fp) % Len(v)) + 1)
     IN  <<p0, q0, [k \in 1..Len(p0) |-> vx(p0[k])], [k \in 1..Len(q0) |-> vx(q0[k])], u,
           <<RegionOn(u, p0), RegionOn(u, PolyComplement(p0, u)), RegionOn(u, q0), RegionOn(u, PolyComplement(q0, u))>>,
           <<TopIdx(p0, u), TopIdx(q0, u)>>,
           \* the single boundary loop of a two-face region
-          IF IsGlue(p0) /\ p0[2].f \in Faces THEN GlueVerts(p0[1], Verts(p0[1], vs), p0[2], Verts(p0[2], vs), Side(GF)) ELSE <<>> >>
+          IF IsGlue(p0) /\ p0[2].f \in Faces THEN GlueVerts(p0[1], Verts(p0[1], vsOn(p0[1].f)), p0[2], Verts(p0[2], vsOn(p0[2].f)), Side(GF)) ELSE <<>> >>
 \* initial states <<P, chunk>>: the work is split into 4 chunks of Q per P (parallelism)
 InitPair == t \in {<<P, ch>> : P \in PolysA, ch \in 0..3}
 NextPair == /\ Len(t) = 2
@@ -96,7 +97,7 @@ RX == <<t[6][1], t[6][2]>>     \* regions of P and of its complement
 RY == <<t[6][3], t[6][4]>>     \* regions of Q and of its complement
 CP0 == PolyComplement(P0, U0)
 CQ0 == PolyComplement(Q0, U0)
-VSet == UNION {OwnPts(Scene[k]) : k \in 1..Len(Scene)}
+VSetOn(f) == UNION {OwnPts(Scene[k]) : k \in {j \in 1..Len(Scene) : Scene[j].f = f}}
 Range(sq) == {sq[n] : n \in 1..Len(sq)}
 
 ValidPair ==
@@ -141,8 +142,8 @@ PairExact ==
             /\ LawsHold(W, RegionOn(W, P0), RegionOn(W, Q0), RegionOn(W, CP0), RegionOn(W, CQ0), PolysTouch(P0, Q0))
             /\ \A k \in 1..Len(Scene) : LoopGeometryOK(Scene[k], GF)
             \* a complemented loop is the same boundary walked backwards; vertices are distinct
-            /\ \A k \in 1..Len(Scene) : /\ Verts(Complement(Scene[k]), VSet) = Reverse(Verts(Scene[k], VSet))
-                                        /\ IsRotationOf(SceneVerts[k], Verts(Scene[k], VSet))
+            /\ \A k \in 1..Len(Scene) : /\ Verts(Complement(Scene[k]), VSetOn(Scene[k].f)) = Reverse(Verts(Scene[k], VSetOn(Scene[k].f)))
+                                        /\ IsRotationOf(SceneVerts[k], Verts(Scene[k], VSetOn(Scene[k].f)))
                                         /\ Cardinality(Range(SceneVerts[k])) = Len(SceneVerts[k])
             /\ \A k \in 1..Len(P0) : DepthIn(P0, k, U0) = DepthIn(P0, k, W)
             /\ \A k \in 1..Len(Q0) : DepthIn(Q0, k, U0) = DepthIn(Q0, k, W)
